@@ -25,7 +25,11 @@ def make_tree(r, bs):
     tails = [[("rand", 20000 + i, tsz)] for i in range(r.choice([40, 80]))]
     # compressible equal-size tails too
     ctails = [[("rep", b"%04d" % i, tsz)] for i in range(20)]
-    groups = singles + multis + tails + ctails
+    # block runs that share their leading blocks and differ only in a short last part (stored as a block of its own with -T):
+    # the byte compare of two runs must reach the end of the last, partial chunk
+    lastsz = r.choice([1000, bs // 2 + 1, bs - 1, 17])
+    prefix = [[pool_blocks[0], pool_blocks[1], ("rand", 30000 + i, lastsz)] for i in range(8)]
+    groups = singles + multis + tails + ctails + prefix
     items = list(groups)
     # true duplicates
     for _ in range(len(groups) // 2):
@@ -92,7 +96,7 @@ def run_case(arg):
             out = os.path.join(work, "o.sqfs")
             ev = os.path.join(work, "ev")
             env = {"VERIF_HASH_BITS": str(bits), "VERIF_EVLOG": ev, "VERIF_EVMAX": "3000000"}
-            base = ["-c", comp, "-b", str(bs), "-j", str(j), "-Q", str(Q), "-q"]
+            base = ["-c", comp, "-b", str(bs), "-j", str(j), "-Q", str(Q), "-q"] + (["-T"] if idx % 3 == 2 else [])
             flagged = {}
             if tool == "gensquashfs" and idx % 3 == 1:
                 # per-file packing flags from a sort file (same priority, so the order is unchanged)
